@@ -276,6 +276,132 @@ def r04f(ctx):
                       f"exceeds this 'upper bound', so the interval widens later and does not contain the final cost")
 
 
+def r04g(ctx):
+    m = ctx.model
+    ctx.rule("R04g", "EditDistance's lower bound while the matrix is incomplete is the minimum accumulated cost over TWO consecutive "
+                     "anti-diagonals (the fringe and the one before it): a diagonal step skips an anti-diagonal, so every path to "
+                     "the last cell crosses at least one of the two but not necessarily a given one")
+    q = m.need_class("EditDistance")
+    b = m.method(q, "bounds")
+    rets = [r for r in walk_no_nested(b.node) if isinstance(r, ast.Return) and isinstance(r.value, ast.Call) and call_name(r.value) == "Range"
+            and len(r.value.args) == 2 and "self.costs[" in ast.unparse(r.value.args[0])]
+    ctx.floor("R04g", len(rets), 1, "incomplete-matrix bounds of EditDistance")
+    # what the previous-diagonal field holds: assigned from list(self._fringe_diagonal()) in _next_fringe
+    nf = m.method(q, "_next_fringe")
+    prev = [self_attr(a.targets[0]) for a in walk_no_nested(nf.node) if isinstance(a, ast.Assign) and self_attr(a.targets[0])
+            and "self._fringe_diagonal()" in ast.unparse(a.value)] if nf else []
+    for r in rets:
+        lower = r.value.args[0]
+        srcs = set()
+        for g in ast.walk(lower):
+            if isinstance(g, ast.GeneratorExp) and "self.costs[" in ast.unparse(g.elt):
+                it = g.generators[0].iter
+                srcs.add("fringe" if ast.unparse(it).replace(" ", "") == "self._fringe_diagonal()" else
+                         ("previous" if self_attr(it) in prev else ast.unparse(it)))
+        inside_min = all(any(isinstance(a, ast.Call) and call_name(a) == "min" for a in [parent(g)] if a is not None)
+                         for g in ast.walk(lower) if isinstance(g, ast.GeneratorExp))
+        if {"fringe", "previous"} <= srcs and inside_min:
+            ctx.proved("R04g", b.file, "EditDistance.bounds", r, "two anti-diagonals", "lower bound = min over the fringe diagonal and the previous one")
+        else:
+            ctx.violation("R04g", b.file, "EditDistance.bounds", r, "two anti-diagonals",
+                          f"the incomplete-matrix lower bound takes the minimum over {sorted(srcs) or 'no diagonal'} only: a match/replace "
+                          f"step moves diagonally and skips an anti-diagonal, so the cheapest cell of a single diagonal can exceed the "
+                          f"final cost - the reported interval then excludes the final cost and its lower bound later drops "
+                          f"(e.g. [43, 91] -> [7, 7])")
+
+
+def _neg_facts(node):
+    """Expressions known to be falsy at node (either `not X` holding or X failing)."""
+    out = set()
+    for t, pol in flatten_conditions(dominating_conditions(node)):
+        if not pol:
+            out.add(ast.unparse(t).replace(" ", ""))
+        elif isinstance(t, ast.UnaryOp) and isinstance(t.op, ast.Not):
+            out.add(ast.unparse(t.operand).replace(" ", ""))
+    return out
+
+
+def r04h(ctx):
+    m = ctx.model
+    ctx.rule("R04h", "EditDistance's progress flag agrees with its interval: (1) the call that completes the matrix (the branch "
+                     "taken when _next_fringe() reports the end) answers True when the bounds moved, i.e. its return value is "
+                     "or-ed with a comparison against the bounds taken on entry; (2) a guard under which tighten_bounds() answers "
+                     "False without doing anything is a guard under which bounds() is a single value")
+    q = m.need_class("EditDistance")
+    tb, b = m.method(q, "tighten_bounds"), m.method(q, "bounds")
+    entry = [a.targets[0].id if isinstance(a, ast.Assign) else a.target.id for a in walk_no_nested(tb.node)
+             if isinstance(a, (ast.Assign, ast.AnnAssign)) and a.value is not None and ast.unparse(a.value).replace(" ", "") == "self.bounds()"
+             and isinstance(a.targets[0] if isinstance(a, ast.Assign) else a.target, ast.Name)]
+    n = 0
+    for br in walk_no_nested(tb.node):
+        if isinstance(br, ast.If) and ast.unparse(br.test).replace(" ", "") == "notself._next_fringe()":
+            for r in [x for s_ in br.body for x in ast.walk(s_) if isinstance(x, ast.Return)]:
+                n += 1
+                txt = ast.unparse(r.value) if r.value is not None else ""
+                ok = isinstance(r.value, ast.BoolOp) and isinstance(r.value.op, ast.Or) and any(
+                    isinstance(v, ast.Compare) and any(e in ast.unparse(v) for e in entry) for v in r.value.values)
+                if ok:
+                    ctx.proved("R04h", tb.file, "EditDistance.tighten_bounds", r, "completion reports progress",
+                               f"`return {norm(r.value, 90)}`: True whenever the bounds moved since entry")
+                else:
+                    ctx.violation("R04h", tb.file, "EditDistance.tighten_bounds", r, "completion reports progress",
+                                  f"`{norm(r, 50)}` in the branch that completes the matrix does not compare the bounds with those taken "
+                                  f"on entry ({entry}): completing the matrix replaces the fringe estimate by the exact cost ([3,5] -> "
+                                  f"[5,5]) yet the call answers False; IterativeTighteningSearch / PossibleEdits update a candidate only "
+                                  f"on True, keep the stale interval and then report 'no progress' forever on a non-definitive range")
+    ctx.floor("R04h", n, 1, "returns of the matrix-completing branch")
+    # (2) do-nothing guards
+    k = 0
+    for r in walk_no_nested(tb.node):
+        if isinstance(r, ast.Return) and isinstance(r.value, ast.Constant) and r.value.value is False:
+            conds = _neg_facts(r)
+            if conds == {"self.from_seq", "self.to_seq"}:
+                k += 1
+                found = None
+                for rb in walk_no_nested(b.node):
+                    if isinstance(rb, ast.Return) and isinstance(rb.value, ast.Call) and call_name(rb.value) == "Range" and len(rb.value.args) == 2 \
+                            and ast.unparse(rb.value.args[0]) == ast.unparse(rb.value.args[1]):
+                        if {"self.from_seq", "self.to_seq"} <= _neg_facts(rb):
+                            found = rb
+                if found is not None:
+                    ctx.proved("R04h", b.file, "EditDistance.bounds", found, "nothing to align is definitive",
+                               f"bounds() answers `{norm(found.value, 30)}` under the guard that makes tighten_bounds() answer False at once")
+                else:
+                    ctx.violation("R04h", tb.file, "EditDistance.tighten_bounds", r, "nothing to align is definitive",
+                                  "tighten_bounds() answers False at once when both trimmed sequences are empty, but bounds() has no "
+                                  "single-valued answer for that case: an EditDistance over equal sequences (string_edit_distance('ab', "
+                                  "'ab'), StringEdit(n, n)) reports [0, cost_upper_bound] forever although its script costs 0")
+    ctx.floor("R04h", k, 1, "do-nothing guards of EditDistance.tighten_bounds")
+
+
+def r04i(ctx):
+    m = ctx.model
+    ctx.rule("R04i", "EditCollection's interval while sub-edits are still being expanded: the upper bound starts at the size-derived "
+                     "cap U and is lowered by each child's improvement (initial upper - current upper); that is an upper bound on "
+                     "the total only if U >= the sum of the children's initial upper bounds, which nothing establishes (U comes from "
+                     "node sizes, a MultiSetEdit child starts at a sum of per-row maxima above them) - so either the subtraction is "
+                     "absent, or the result is re-based on the children's own current upper bounds")
+    q = m.need_class("EditCollection")
+    b = m.method(q, "bounds")
+    subs = [a for a in walk_no_nested(b.node) if isinstance(a, ast.AugAssign) and isinstance(a.op, ast.Sub)
+            and ast.unparse(a.target).endswith(".upper_bound") and "initial_bounds.upper_bound" in ast.unparse(a.value)]
+    init = m.method(q, "__init__")
+    cap_from_sizes = any("total_size" in ast.unparse(a.value) for a in walk_no_nested(init.node)
+                         if isinstance(a, (ast.Assign, ast.AugAssign)) and "cost_upper_bound" in ast.unparse(a.targets[0] if isinstance(a, ast.Assign) else a.target))
+    if not subs:
+        ctx.proved("R04i", b.file, "EditCollection.bounds", b.node, "improvement subtraction", "no improvement is subtracted from the cap")
+        return
+    for a in subs:
+        if cap_from_sizes:
+            ctx.violation("R04i", b.file, "EditCollection.bounds", a, "improvement subtraction",
+                          f"`{norm(a, 90)}` lowers the cap by a child's improvement, but the cap is from_node.total_size + to_node.total_size "
+                          f"+ 1 while a child's initial upper bound can be larger (MultiSetEdit: sum of per-row maxima): the reported "
+                          f"upper bound drops below the final cost and below the lower bound ([0,141] -> [88,63] -> [88,88] for two "
+                          f"plist files), and a parent that adds such ranges raises ValueError")
+        else:
+            ctx.inconclusive("R04i", b.file, "EditCollection.bounds", a, "improvement subtraction", "cannot tell how the cap relates to the children's initial bounds")
+
+
 def run(ctx):
     m = ctx.model
     cg = CallGraph(m)
@@ -287,6 +413,9 @@ def run(ctx):
     r04d(ctx)
     r04e(ctx)
     r04f(ctx)
+    r04g(ctx)
+    r04h(ctx)
+    r04i(ctx)
     from .c05 import r05c
     from .c17 import r17b
     r05c(ctx)     # a candidate / sub-edit taken from a one-shot iterator and then dropped makes the interval unsound
@@ -294,5 +423,7 @@ def run(ctx):
     from .c03 import r03g, r03d
     r03g(ctx)     # size-derived caps of compound edits are sound only if sizes bound the computed leaf costs
     r03d(ctx)     # a list's cost is final only if every accumulated cell was exhausted first
+    from .c03 import r03h
+    r03h(ctx)     # a matcher that collapses equal elements reports a bound its matching cannot reach (and never terminates)
     ctx.assume("that an interval never widens, always contains the final cost, and that refinement is finite are "
                "statements about runtime numbers and are NOT decided; only the structural necessary conditions are")
